@@ -70,7 +70,8 @@ Definition npow (a b : num) : num :=
 Definition nbitxor := lift2 (fun x y => I (Z.lxor x y)) (fun _ _ => NErr).
 Inductive uop := UNeg | UAbs.
 Inductive nop := NClip | NWrap | NFold.
-Inductive fname := FInc | FDbl | FNeg | FPair | FEven | FLt3 | FPos | FBoom.   (* FBoom: raises a BaseException *)
+Inductive fname := FInc | FDbl | FNeg | FPair | FEven | FLt3 | FPos | FBoom   (* FBoom: raises a BaseException *)
+                 | FFloat | FAbs | FWrap1.   (* the CLASS float, the builtin abs, a user class (list subclass holding x) *)
 Inductive fkind := KCollect | KSelect | KReject.
 
 Definition binop (o : bop) (a b : val) : option val :=
@@ -116,6 +117,9 @@ Definition fn_apply (f : fname) (v : val) : option val :=
   | FLt3 => binop BLt v (VN (I 3))
   | FPos => binop BGt v (VN (I 0))
   | FBoom => None
+  | FFloat => match as_num v with Some n => ret_num (pfloat n) | None => None end
+  | FAbs => unop UAbs v
+  | FWrap1 => Some (VL [v])
   end.
 
 Definition truthy (v : val) : bool :=
